@@ -1,8 +1,9 @@
 SPECIFICATION Spec
 CONSTANTS
   Family = "expr"
-  MaxDepth = 3
+  MaxDepth = 2
   FullOps = "all"
   AllAtomsUpTo = 2
-  DefaultFrom = 3
+  DefaultFrom = 99
+  OpsFrom = 99
 INVARIANTS SpineOK FullOK Emit
